@@ -42,7 +42,8 @@ def plan(tier, seed):
 
 def _plan(tier, seed):
     n = 16000 if tier == "quick" else 1000000
-    return [{"kind": "random", "start": p * (n // NSHARDS), "count": n // NSHARDS} for p in range(NSHARDS)]
+    return [{"kind": "random", "start": p * (n // NSHARDS), "count": n // NSHARDS} for p in range(NSHARDS)] + \
+        [{"kind": "huge", "start": 4 * p, "count": 4} for p in range(2 if tier == "quick" else 8)]
 
 
 def make_grid(rng, x, beyond):
@@ -71,14 +72,19 @@ def run_case(ctx, kind_, idx):
     from traffic_weaver.process import interpolate
     rng = ctx.rng(kind_, idx)
     cid = ctx.case_id(kind_, idx)
-    x, y, meta = R.gen_series(rng, 4, 60, ties_share=0.2, long_share=R.LONG_SHARE)
+    x, y, meta = R.gen_series(rng, 4, 60, ties_share=0.2, long_share=0.0 if kind_ == "huge" else R.LONG_SHARE)
     method = METHODS[int(rng.integers(0, 4))]
+    if kind_ == "huge":
+        method = ["constant", "linear", "constant", "cubic"][idx % 4]
     affine = bool(rng.integers(0, 4) == 0)
     if affine:
         a, b = float(rng.normal(0, 2)), float(rng.normal(0, 5))
         y = a * (x - x[0]) + b
         meta["ycls"] = "affine"
     mode = ["function", "function", "weaver_n", "weaver_grid", "weaver_bad_grid"][int(rng.integers(0, 5))]
+    if kind_ == "huge":
+        # hourly averages expanded to one point per second: a new grid of more than 2**16 points
+        mode = ["weaver_n", "function"][(idx // 4) % 2]
     info = {"mode": mode, "method": method, "m": len(x), "xcls": meta["xcls"], "ycls": meta["ycls"]}
     if len(x) <= 10:
         info.update({"x": x, "y": y})
@@ -130,6 +136,8 @@ def run_case(ctx, kind_, idx):
             if mode == "weaver_n":
                 wv = wv0 if wv0 is not None else Weaver(x.copy(), y.copy())
                 n = int(rng.choice([2, 3, 5, 10, 100, 500, int(rng.integers(2, 501))]))
+                if kind_ == "huge":
+                    n = int(rng.integers(66000, 90002))
                 info["n"] = n
                 n_arg, info["n_type"] = gen.count_arg(rng, n)
                 wv.interpolate(n_arg) if method == "linear" and rng.integers(0, 2) else \
@@ -151,6 +159,10 @@ def run_case(ctx, kind_, idx):
                 new_x, got = gx, gy
             else:
                 new_x = x.copy() if rng.integers(0, 4) == 0 else make_grid(rng, x, beyond=True)
+                if kind_ == "huge":
+                    span_ = float(x[-1] - x[0])
+                    new_x = np.sort(np.concatenate([x, rng.uniform(float(x[0]) - 0.02 * span_, float(x[-1]) + 0.02 * span_,
+                                                                   int(rng.integers(66000, 90001)))]))
                 if mode == "weaver_grid":
                     inner = new_x[(new_x > x[0]) & (new_x < x[-1])]
                     new_x = np.concatenate([[x[0]], inner, [x[-1]]])
